@@ -117,6 +117,7 @@ def common_dims(rng, idx=None):
         "early_reply": rng.random() < 0.25,
         "dev_version": rng.choice([0x01000000, 0x01000000, 0x01000001, 1]),   # what the device announces in its CNXN (the host speaks 0x01000000)
         "eager": rng.random() < 0.5,       # fast device (answers hit the wire at once: a WRTE may be in flight when the host closes) vs. slow device
+        "pace": rng.choice([0.0, 0.0, 0.0, 0.0, 0.0, 0.0, 0.0, 0.3, 2.0]),   # virtual seconds between the device's WRTE packets: operations may last longer than any timeout although no single wait does
     }
 
 
@@ -136,6 +137,7 @@ def make_session(impl, dims, seed, connect=True, **kw):
     sim.sync_plan.early_reply = bool(dims.get("early_reply", False))
     sim.version = dims.get("dev_version", 0x01000000)
     sim.eager = bool(dims.get("eager", False))
+    sim.wrte_delay = float(dims.get("pace", 0.0) or 0.0)
     sim.early_close = bool(dims.get("early_close", False))   # opt-in per check (with several live streams it would step on K1 outside C06)
     if connect:
         out = s.call("connect")
